@@ -196,7 +196,7 @@ CONFIG = {
         "level_note": "Relevant goroutines are those created during the case whose stack holds a library or harness feeder/reader frame; a 'stuck' verdict needs three identical consecutive snapshots. One case at a time per process.",
         "assumptions": ["the library uses no select and no timers (grep), so a goroutine parked in a channel operation can only be released by another goroutine"],
         "gomaxprocs": [16],
-        "quick": {"checks": 40, "shards": 16},
+        "quick": {"checks": 120, "shards": 16},
         "thorough": {"checks": 1500, "shards": 16, "timeout": 10800},
     },
     "C09": {
@@ -340,3 +340,23 @@ _MORE4 = {
 for _k, _v in _MORE4.items():
     CONFIG[_k]["rule"] += _v
 CONFIG["C13"]["thorough"]["checks"] = 500
+
+# Extensions that came out of the fifth round of seeded changes.
+_MORE5 = {
+    "C01": " Rarely (about one draw in 600, one in 100 in the thorough tier) the input is 2^k-3 .. 2^k+40 values long for k in 8..13.",
+    "C02": " For the four types without an IdlePeriod method the declared period is the implied one - until the type grows the method, which is then what is checked.",
+    "C03": " Strategy trees share one instance between identical sub-expressions in half of the draws; 1-3 values of the series are missing (NaN) in 1/8 of the cases.",
+    "C05": " Threshold pairs (Rsi, StochasticRsi, MoneyFlowIndex) are swapped or equal in a third of the draws; strategy trees may share instances; NaN gaps in 1/8 of the cases.",
+    "C08": " Half of the snapshots of the buy-and-hold check are untraded (volume 0), a quarter are flat bars.",
+    "C09": " Strategy trees share one instance between identical sub-expressions in half of the draws and repeat a member of a group in a quarter.",
+    "C11": " csv/slow-reader: once per run a file is read row by row with a pause of 6 s (21 s in the thorough tier) after the first row.",
+    "C12": " CLI look-backs also 120000 and 1000000 days.",
+    "C13": " One asset in six has a missing quote (close 0) inside the window; the outcome of every direct evaluation is compared with an independent all-in/all-out simulation of its own actions on the in-window closings; NaN / Inf outcomes are exempt from the order clauses only.",
+    "C15": " DonchianChannel also over int8; one case in sixteen uses a window of 100-300 values over a quiet series.",
+    "C17": " One case in sixteen is a crowded multiset (120-300 copies of one value inserted, then removed one by one) or a window of 100-300 values over a quiet series.",
+    "C19": " filesystem-repository: FileSystemRepository.Get and LastDate on a generated damaged Snapshot file, padded with 100-3000 well-formed rows before or after the damage in a fifth of the cases.",
+}
+for _k, _v in _MORE5.items():
+    CONFIG[_k]["rule"] += _v
+for _k in CONFIG:
+    CONFIG[_k]["rule"] += " A third of the shards run with the process-local time zone set to UTC+2, a third to UTC-9:30."
